@@ -337,6 +337,29 @@ func c18Texts(def *ph.Def, path string) (direct, viaOption, viaCommand, viaRoot 
 		if o.Panic == "" && !o.HasErr {
 			viaOption, haveOpt = o.WDispatch, true
 		}
+		// the help option given behind other options of the level that take a value: the help still shows the
+		// declared defaults, not what the command line has just set
+		var valued []string
+		for _, od := range c18Level(def, path).opts {
+			switch od.Kind {
+			case ph.Str, ph.StrOpt:
+				valued = append(valued, "--"+od.Name+"=changed")
+			case ph.Int, ph.IntOpt:
+				valued = append(valued, "--"+od.Name+"=987")
+			case ph.Flt, ph.FltOpt:
+				valued = append(valued, "--"+od.Name+"=9.75")
+			case ph.Incr:
+				valued = append(valued, "--"+od.Name, "--"+od.Name)
+			}
+		}
+		if len(valued) > 0 && haveOpt {
+			p := ph.Build(def, nil)
+			o := p.Run(append(append(append([]string{}, words...), valued...), "--"+def.Help), true)
+			p.Close()
+			if o.Panic == "" && !o.HasErr && o.WDispatch != viaOption {
+				viaOption = o.WDispatch // reported below as "differs from Help()"
+			}
+		}
 	}
 	p := ph.Build(def, nil)
 	o := p.Run(append(append([]string{}, words...), def.Help), true)
@@ -390,7 +413,7 @@ func init() {
 		ID:        "C18",
 		QuickSecs: 60, ThoroSecs: 300,
 		Rule: "complete finite product: 12 option kinds x alias count {0,1,2} x required x environment binding x description {none, one line, two lines, text with percent signs} for the option of interest inside a three-option program (576 definitions), plus 24 command trees (every kind as inherited root option, commands with descriptions, sub-command, argument declarations, UnsetOptions wrapper, with and without help command) at every level, and the same definitions again with Help() rendered after every declaration step; " +
-			"each help text is parsed structurally (sections, entries) and checked clause by clause, and the texts reached through the help option, the help command, Help() of the level's object and Help() of the root object after a Parse that selected the level are compared byte for byte; states = definitions x levels, transitions = help texts generated, distinct_nontrivial = distinct help texts",
+			"each help text is parsed structurally (sections, entries) and checked clause by clause, and the texts reached through the help option (alone and behind options of the level that were given a value), the help command, Help() of the level's object and Help() of the root object after a Parse that selected the level are compared byte for byte; states = definitions x levels, transitions = help texts generated, distinct_nontrivial = distinct help texts",
 		Assume: []string{"the exact layout (padding, wrapping) is not part of the property and is not compared"},
 		Run: func(c *RunCtx) {
 			res := c.Res
